@@ -631,7 +631,8 @@ static void fd_case(Builder& B, const std::string& gid, Emit& em) {
         }
         V wantg = apply_lin(rp.trafo, sec_deriv(sub, ulq));
         Vec2 gotg = rp.gradient(u, from_below);
-        ld gtol = sub.type == SubPathType::Parametric ? 1e-4L : 1e-9L;
+        // without a gradient function SubPath::gradient is a one-sided difference with step 1 / (10 max_evals) at the ends
+        ld gtol = sub.type == SubPathType::Parametric ? (sub.path_gradient == NULL ? 5e-3L : 1e-4L) : 1e-9L;
         if (lenl(tov(gotg) - wantg) > gtol * (1 + lenl(wantg))) {
             snprintf(buf, sizeof buf, "gradient(%.17g, %d) = (%.12g, %.12g), derivative of the section is (%.12Lg, %.12Lg)", u, (int)from_below, gotg.x, gotg.y, wantg.x, wantg.y);
             fail = std::string("FAIL robustpath-gradient ") + buf;
